@@ -1,4 +1,4 @@
-(* C03: the two indicators of cinar/indicator that rely on explicit buffering to re-join a lagging branch (trend/dema.go,
+(* C03: pipelines of whole indicators as networks. First the two indicators of cinar/indicator that rely on explicit buffering to re-join a lagging branch (trend/dema.go,
    trend/apo.go), as pipelines over the helper processes.  An EMA is represented by its channel behaviour: it consumes
    `period` values before it emits its first one and then emits one value per value consumed, on a channel with the
    capacity of its input, which is what Skip(period-1) does (the values differ, the blocking behaviour does not).
@@ -86,6 +86,72 @@ Proof.
   exact (proj1 (deadlocked_run_means_always_deadlocks (apo_desc 8 1 20 0) 4000 Hwf apo_fast_slower_deadlocks l' t' E T)).
 Qed.
 
+(* ---- pipelines that consist of helper calls only: exact networks ---- *)
+
+(* trend.MovingSum: cs := Duplicate(c, 2); Skip(Operate(cs[0], Shift(cs[1], period, 0)), period-1).
+   [base] is the first free channel id; uses base .. base+4; the result is channel base+4. Capacities follow from kin = cap(c). *)
+Definition moving_sum_nodes (cin base p : nat) : list node :=
+  [NDup cin [base; base + 1]; NShift (base + 1) (base + 2) p 0; NOperate base (base + 2) (base + 3); NSkip (base + 3) (base + 4) (p - 1)].
+Definition moving_sum_caps (kin p : nat) : list nat := [kin; kin; kin + p; 0; 0].
+
+(* volume.Vwap: vs := Duplicate(volumes, 2); Divide(Sum(Multiply(closings, vs[0])), Sum(vs[1]))
+   channels: 0 closings, 1 volumes, 2/3 duplicate outs, 4 Multiply out, 5..9 first moving sum, 10..14 second moving sum, 15 result *)
+Definition vwap_desc (p nc nv k : nat) : desc :=
+  mk_desc ([NSource 0 (seq 1 nc); NSource 1 (seq 1 nv); NDup 1 [2; 3]; NOperate 0 2 4]
+           ++ moving_sum_nodes 4 5 p ++ moving_sum_nodes 3 10 p ++ [NOperate 9 14 15; NSink 15])
+          ([k; k; k; k; 0] ++ moving_sum_caps 0 p ++ moving_sum_caps k p ++ [0]).
+
+(* volume.Mfm: Divide(Subtract(Subtract(c0, l0), Subtract(h0, c1)), Subtract(h1, l1)) over duplicated highs, lows, closings
+   channels: 0 highs, 1 lows, 2 closings, 3/4 h0 h1, 5/6 l0 l1, 7/8 c0 c1, 9 c0-l0, 10 h0-c1, 11 their difference, 12 h1-l1, 13 result *)
+Definition mfm_desc (nh nl nc k : nat) : desc :=
+  mk_desc [NSource 0 (seq 1 nh); NSource 1 (seq 1 nl); NSource 2 (seq 1 nc); NDup 0 [3; 4]; NDup 1 [5; 6]; NDup 2 [7; 8];
+           NOperate 7 5 9; NOperate 3 8 10; NOperate 9 10 11; NOperate 4 6 12; NOperate 11 12 13; NSink 13]
+          [k; k; k; k; k; k; k; k; k; 0; 0; 0; 0; 0].
+
+Definition grid3 (a b c : list nat) : list (nat * nat * nat) :=
+  flat_map (fun x => flat_map (fun y => map (fun z => (x, y, z)) c) b) a.
+
+Lemma vwap_sweep : forallb (fun '(p, n, k) => clean (vwap_desc p n n k) 6000) (grid3 [1; 2; 3; 5; 8; 14] [0; 1; 2; 7; 20; 45] [0; 1; 4]) = true.
+Proof. vm_compute. reflexivity. Qed.
+Lemma mfm_sweep : forallb (fun '(n, k) => clean (mfm_desc n n n k) 6000) (list_prod [0; 1; 2; 7; 20; 45; 80] [0; 1; 4; 16]) = true.
+Proof. vm_compute. reflexivity. Qed.
+
+(* equal input lengths: every schedule completes *)
+Theorem vwap_never_deadlocks_on_grid : forall p n k, In (p, n, k) (grid3 [1; 2; 3; 5; 8; 14] [0; 1; 2; 7; 20; 45] [0; 1; 4]) ->
+  forall l' t', exec (build (vwap_desc p n n k)) l' t' -> terminal t' -> all_halted t' /\ ~ deadlocked t'.
+Proof.
+  intros p n k Hin. apply (clean_all_schedules (vwap_desc p n n k) 6000).
+  pose proof vwap_sweep as S. rewrite forallb_forall in S. exact (S _ Hin).
+Qed.
+Theorem mfm_never_deadlocks_on_grid : forall n k, In (n, k) (list_prod [0; 1; 2; 7; 20; 45; 80] [0; 1; 4; 16]) ->
+  forall l' t', exec (build (mfm_desc n n n k)) l' t' -> terminal t' -> all_halted t' /\ ~ deadlocked t'.
+Proof.
+  intros n k Hin. apply (clean_all_schedules (mfm_desc n n n k) 6000).
+  pose proof mfm_sweep as S. rewrite forallb_forall in S. exact (S _ Hin).
+Qed.
+
+(* unequal input lengths (the open C03 findings): a deadlock under every schedule *)
+Example vwap_short_closings_deadlocks : deadlockedb (run 6000 (build (vwap_desc 3 5 20 0))) = true.
+Proof. vm_compute. reflexivity. Qed.
+Theorem vwap_unequal_inputs_always_deadlocks : forall l' t',
+  exec (build (vwap_desc 3 5 20 0)) l' t' -> terminal t' -> deadlocked t'.
+Proof.
+  intros l' t' E T.
+  assert (Hwf : wellformed (vwap_desc 3 5 20 0) = true) by (vm_compute; reflexivity).
+  exact (proj1 (deadlocked_run_means_always_deadlocks (vwap_desc 3 5 20 0) 6000 Hwf vwap_short_closings_deadlocks l' t' E T)).
+Qed.
+Example mfm_short_lows_deadlocks : deadlockedb (run 6000 (build (mfm_desc 38 6 38 4))) = true.
+Proof. vm_compute. reflexivity. Qed.
+Theorem mfm_unequal_inputs_always_deadlocks : forall l' t',
+  exec (build (mfm_desc 38 6 38 4)) l' t' -> terminal t' -> deadlocked t'.
+Proof.
+  intros l' t' E T.
+  assert (Hwf : wellformed (mfm_desc 38 6 38 4) = true) by (vm_compute; reflexivity).
+  exact (proj1 (deadlocked_run_means_always_deadlocks (mfm_desc 38 6 38 4) 6000 Hwf mfm_short_lows_deadlocks l' t' E T)).
+Qed.
+
 Print Assumptions dema_never_deadlocks_on_grid.
 Print Assumptions apo_never_deadlocks_on_grid.
 Print Assumptions dema_wrong_buffer_always_deadlocks.
+Print Assumptions vwap_unequal_inputs_always_deadlocks.
+Print Assumptions mfm_never_deadlocks_on_grid.
